@@ -278,9 +278,14 @@ def main():
     with E.rebound(tr, interpolate_ntv2=istub):
         for fwd, sgn in ((True, 1), (False, -1)):
             for meth in ('bicubic', 'bilinear'):
-                out = tr.ntv2_2d(gobj, lat, lon, fwd, meth)
-                ok2 = ok2 and seen['args'][0] is gobj and seen['args'][1] is lat and seen['args'][2] is lon and seen['args'][3] == meth
-                ok2 = ok2 and eq(out[0], lat.t + sgn * s0.t / 3600) and eq(out[1], lon.t - sgn * s1.t / 3600)
+                pths_ = E.explore(lambda: tr.ntv2_2d(gobj, lat, lon, fwd, meth))          # a position inside a sub-grid, ANY shift values incl. 0
+                ok2 = ok2 and bool(pths_) and all(p_['kind'] == 'ret' for p_ in pths_)
+                for p_ in pths_:
+                    if p_['kind'] != 'ret':
+                        continue
+                    out = p_['val']
+                    ok2 = ok2 and seen['args'][0] is gobj and seen['args'][1] is lat and seen['args'][2] is lon and seen['args'][3] == meth
+                    ok2 = ok2 and eq(out[0], lat.t + sgn * s0.t / 3600) and eq(out[1], lon.t - sgn * s1.t / 3600)
         seen['ret'] = (None, None, None, None)
         raised = 0
         try:
@@ -293,7 +298,7 @@ def main():
             except exc:
                 raised += 1
     P.oblige('ntv2_2d.shift_signs', 'transform.ntv2_2d', 'forward/reverse x both methods', dict(result='discharged' if ok2 else 'sat', backend='call summary + term identity', ms=0), strict=True,
-             note='forward: lat + shift_lat/3600, lon - shift_lon/3600 (longitude shift positive west); reverse: the opposite; the position and method reach the interpolator unchanged')
+             note='forward: lat + shift_lat/3600, lon - shift_lon/3600 (longitude shift positive west); reverse: the opposite; for every value of the interpolated shifts including exactly 0 (all paths return); the position and method reach the interpolator unchanged')
     P.oblige('ntv2_2d.guards_and_outside', 'transform.ntv2_2d', 'guards', dict(result='discharged' if raised == 4 else 'sat', backend='native execution', ms=0), strict=True,
              note='outside every sub-grid (four None) raises ValueError; wrong grid type / method rejected')
     P.summaries += ['file content: uninterpreted FILE_F32/FILE_F64/FILE_I32(offset); ghost open/struct/int.from_bytes/datetime rebound in the loaded module']
